@@ -191,7 +191,11 @@ func (x *exec) staticCall(fr *frame, s *State, fn *ssa.Function, bind []*Val, ar
 	}
 	if isErrCtor(key) {
 		v := x.freshVal("err", resT, s)
-		x.assume(s, Not(Eq(App("i-tag", x.term(v)), "0")))
+		if isIfaceType(resT) {
+			x.assume(s, Not(Eq(App("i-tag", x.term(v)), "0")))
+		} else {
+			x.assume(s, Not(Eq(x.term(v), "0"))) // a freshly built error object (pointer)
+		}
 		return v
 	}
 	if r, ok := x.model(fr, s, key, args, resT, pos); ok {
